@@ -424,6 +424,10 @@ impl FixtureDatabase {
             return HashSet::new();
         }
         visited.insert(canonical_path.clone());
+        // Only the outermost call sees the whole import graph. A nested call made while an
+        // importer is still on the stack is cut short by `visited` when the modules import
+        // each other, so its (possibly truncated) result must not be memoised.
+        let is_outermost_call = visited.len() == 1;
 
         // Get the file content first (needed for cache validation)
         let Some(content) = self.get_file_content(&canonical_path) else {
@@ -448,14 +452,16 @@ impl FixtureDatabase {
         let imported_fixtures = self.compute_imported_fixtures(&canonical_path, &content, visited);
 
         // Store in cache
-        self.imported_fixtures_cache.insert(
-            canonical_path.clone(),
-            (
-                content_hash,
-                current_version,
-                Arc::new(imported_fixtures.clone()),
-            ),
-        );
+        if is_outermost_call {
+            self.imported_fixtures_cache.insert(
+                canonical_path.clone(),
+                (
+                    content_hash,
+                    current_version,
+                    Arc::new(imported_fixtures.clone()),
+                ),
+            );
+        }
 
         info!(
             "Found {} imported fixtures for {:?}: {:?}",
